@@ -15,7 +15,8 @@
 
    Program grammar (all records; `k` is the kind):
      prog  = [funcs: Seq(func), classes: Seq(class), main: Seq(stmt), catches: Seq(catch), inputs: Seq(Str)]
-     func  = [name, params: Seq(Str), body: Seq(stmt), catches: Seq(catch)]
+     func  = [name, params: Seq(Str), body: Seq(stmt), catches: Seq(catch), mod: Nat (optional; 0 = main module,
+              k = the k-th imported module file: its bodies see only their own module's symbols)]
      catch = [cls: Str, body: Seq(stmt)]
      class = [name, props: Seq([n, e]), ctor: Seq(func) (0/1), methods: Seq(func)]
      stmt  = decl(names, const, e) | expr(e) | if(conds, blocks, els) | while(c, body)
@@ -145,7 +146,10 @@ Running == res.k = "run"
 Frame(kind, code, catches, this, sd0, site, act, owner) ==
   [kind |-> kind, code |-> code, catches |-> catches, pc |-> 1, stack |-> <<>>, this |-> this,
    hasRet |-> FALSE, ret |-> VNull, last |-> VNull, sd0 |-> sd0, site |-> site, cur |-> <<>>,
-   act |-> act, owner |-> owner, y |-> ""]
+   act |-> act, owner |-> owner, y |-> "",
+   \* module of the code this frame runs, and the part of the symbol stack it can see: a body of ANOTHER module than its
+   \* caller's starts from that module's own (here: empty) symbols - syms[1..base] belong to other modules
+   mod |-> 0, base |-> 0]
 
 InitWith(P) ==
   /\ prog \in P
@@ -160,7 +164,7 @@ InitWith(P) ==
 (* ------------------------------------------------------------------ symbol table = runtime.Scope *)
 RECURSIVE FindSym(_, _, _)
 FindSym(ss, name, j) == IF j = 0 THEN 0 ELSE IF ss[j].name = name THEN j ELSE FindSym(ss, name, j - 1)
-Lookup(name) == FindSym(syms, name, Len(syms))
+Lookup(name) == LET j == FindSym(syms, name, Len(syms)) IN IF frames # <<>> /\ j <= Last(frames).base THEN 0 ELSE j
 RECURSIVE TrimTo(_, _)
 TrimTo(ss, d) == IF ss # <<>> /\ Last(ss).depth > d THEN TrimTo(Front(ss), d) ELSE ss
 DeclaredHere(name) == \E j \in 1..Len(syms) : syms[j].name = name /\ syms[j].depth = depth
@@ -475,9 +479,12 @@ RECURSIVE BindParams(_, _, _, _)
 BindParams(ps, as, ss, d) ==
   IF ps = <<>> THEN ss
   ELSE BindParams(Tail(ps), Tail(as), Append(ss, [name |-> ps[1], depth |-> d, const |-> TRUE, val |-> as[1]]), d)
+ModOf(fn) == IF "mod" \in DOMAIN fn THEN fn.mod ELSE 0         \* 0 = the main module
 Enter(fn, pfx, this, args, callerStack, y) ==
   LET caller == [F EXCEPT !.stack = callerStack, !.y = y]
-      nf == Frame("fn", BodyCode(fn.body, pfx), Catches(fn.catches, pfx), this, depth, F.cur, nact + 1, 0)
+      m == ModOf(fn)
+      nf == [Frame("fn", BodyCode(fn.body, pfx), Catches(fn.catches, pfx), this, depth, F.cur, nact + 1, 0)
+             EXCEPT !.mod = m, !.base = IF m = F.mod THEN F.base ELSE Len(syms)]
   IN /\ frames' = Append(Front(frames) \o <<caller>>, nf)
      /\ depth' = depth + 1
      /\ syms' = BindParams(fn.params, args, syms, depth + 1)
@@ -703,7 +710,7 @@ IUnwind ==
           /\ UNCHANGED <<syms, depth, nact>>
      ELSE LET owner == frames[c.j]
               hf == [Frame("handler", owner.catches[c.q].code, <<>>, exc.v, owner.sd0 + 1, owner.cur, nact + 1, c.j)
-                     EXCEPT !.cur = owner.cur]
+                     EXCEPT !.cur = owner.cur, !.mod = owner.mod, !.base = owner.base]
           IN /\ frames' = Append(Take(frames, c.j), hf)
              /\ depth' = owner.sd0 + 1                       \* the exec scope of the owner stays (inputs visible)
              /\ syms' = TrimTo(syms, owner.sd0 + 1)
